@@ -48,7 +48,7 @@ OnInst(name, After(_, _)) ==
 
 Process  == OnInst("process", AfterProcess)
 Partial  == OnInst("partial", AfterProcess)
-Bad      == OnInst("bad", AfterOther)
+Bad      == OnInst("bad", AfterBad)
 SetRatio == OnInst("set_ratio", AfterSetRatio)
 SetChunk == OnInst("set_chunk", AfterSetChunk)
 Reset    == OnInst("reset", AfterReset)
@@ -97,6 +97,7 @@ P(name) ==
     [] name = "C13_Untouched"    -> OnCall => C13_Untouched(I, e)
     [] name = "C13_Ctor"         -> e.ev = "new" => C13_Ctor(e)
     [] name = "C14_Delay"        -> OnCall => C14_Delay(I, e)
+    [] name = "C14_Peak"         -> OnCall => C14_Peak(I, e)
 
 KF(name) == IF OnCall THEN KnownFinding(name, I, e) ELSE ""
 Where(name) == name \o "|" \o scr \o "|" \o ToString(e.line) \o "|" \o e.ev
@@ -124,5 +125,6 @@ H_C13_ErrVariant == Hard("C13_ErrVariant")     S_C13_ErrVariant == Soft("C13_Err
 H_C13_Untouched == Hard("C13_Untouched")       S_C13_Untouched == Soft("C13_Untouched")
 H_C13_Ctor == Hard("C13_Ctor")                 S_C13_Ctor == Soft("C13_Ctor")
 H_C14_Delay == Hard("C14_Delay")               S_C14_Delay == Soft("C14_Delay")
+H_C14_Peak == Hard("C14_Peak")                 S_C14_Peak == Soft("C14_Peak")
 
 =============================================================================
